@@ -51,6 +51,33 @@ def graph_lemmas(ctx: RunCtx):
     return out
 
 
+def lock_selection(ctx: RunCtx):
+    """Ownership obligation (kind 5): the map invocation id -> lock must be a function also under concurrent callers, i.e. the
+    selection in MemOrchestrator._get_invocation_lock is one atomic dict operation (setdefault) or runs under a lock.  A
+    check-then-insert on the shared dict lets two callers obtain two different locks for one id."""
+    import ast
+    fi = ctx.src.function("pynenc.orchestrator.mem_orchestrator:MemOrchestrator._get_invocation_lock")
+    accesses, under_lock = [], True
+    with_nodes = [n for n in ast.walk(fi.node) if isinstance(n, ast.With)]
+    guarded = {id(x) for w in with_nodes for x in ast.walk(w)}
+    for node in ast.walk(fi.node):
+        if isinstance(node, ast.Attribute) and node.attr == "locks" and isinstance(node.value, ast.Name) and node.value.id == "self":
+            accesses.append(node)
+            if id(node) not in guarded:
+                under_lock = False
+    single_atomic = False
+    if len(accesses) == 1:
+        for node in ast.walk(fi.node):
+            if isinstance(node, ast.Call) and isinstance(node.func, ast.Attribute) and node.func.attr == "setdefault" and node.func.value is accesses[0]:
+                single_atomic = True
+    ok = bool(accesses) and (single_atomic or under_lock)
+    o = Obligation(name=f"{PID}/ownership/MemOrchestrator._get_invocation_lock/lock-selection-is-one-atomic-operation-or-under-a-lock", kind="perm",
+                   pc=[], goal=z3.BoolVal(ok), function=fi.key)
+    o.status, o.backend = ("discharged" if ok else "failed"), "ast-scan"
+    o.detail = f"{len(accesses)} accesses to self.locks; single setdefault: {single_atomic}; all under a lock: {under_lock and bool(with_nodes)}"
+    return [o]
+
+
 def forced_schedules(ctx: RunCtx) -> BoundedResult:
     """Bounded stand-in: two real pollers, forced to interleave at the claim, on queues with duplicate ids - never both get one id."""
     import threading
@@ -115,7 +142,7 @@ def build(ctx: RunCtx) -> Prop:
                        "PENDING request succeeded; the read-validate-write of a transition runs under the lock of that invocation id (Mem) / inside BEGIN "
                        "IMMEDIATE on one connection (SQLite orchestrator and broker)",
         level="proof", technique="contract-based deductive verification: sequential contracts + lock/transaction ownership obligations on the real ASTs; forced two-thread schedules as bounded stand-in",
-        registry=reg, verify=verify, lemmas=[graph_lemmas], bounded=[forced_schedules],
+        registry=reg, verify=verify, lemmas=[graph_lemmas, lock_selection], bounded=[forced_schedules],
         assumptions=GLUE_ASSUMPTIONS + ["threading.Lock is mutual exclusion; dict.setdefault is atomic under the GIL",
                                         "SQLite BEGIN IMMEDIATE gives one writer until commit/rollback; sqlite3 does not commit implicitly between the statements used"],
         trusted_base=GLUE_TRUSTED + ["CPython GIL atomicity of dict.setdefault", "sqlite3"],
